@@ -96,6 +96,13 @@ pub fn programs(tier: Tier) -> ProgramSet {
     for e in specs {
         push(e, &mut out);
     }
+    {
+        let (specs, ex) = enumerate(&EnumSpec::base(1), "B1", &alphabet(1, &cfg(Tier::Quick, false)), 2, &parse_domain);
+        excluded += ex as u64;
+        for e in specs {
+            push(e, &mut out);
+        }
+    }
     if tier == Tier::Thorough {
         let (specs, ex) = enumerate(&base, "B3", &alphabet(3, &cfg(tier, true)), 3, &parse_domain);
         excluded += ex as u64;
